@@ -176,40 +176,25 @@ def run(eng: Engine, ck: Check):
                       not after, f'statements after the transition: {[unparse(a.ast)[:40] for a in after]}',
                       construct=f'{val}.{name} last effect')
 
+    from . import defs
+    defs.transfer_direction_predicates(eng, ck, 'R-C03-REFUSE-PURE')
+
     # ---- R-C03-LOCKED
-    wl = base.methods.get('_wrap_lock')
-    ck.ob('R-C03-LOCKED', base, base.node, 'TransferState._wrap_lock exists', wl is not None, 'missing',
-          construct='_wrap_lock exists')
-    if wl is not None:
-        ck.visited(wl)
-        for nm in ('__init__', '__setstate__'):
-            m = base.methods.get(nm)
-            ok = m is not None and any(not eng.guards_at(m, c) for c in calls_on(m.node, '_wrap_lock'))
-            ck.ob('R-C03-LOCKED', m or base, (m or base).node, f'TransferState.{nm} wraps the public methods with the state lock unconditionally',
-                  ok, '_wrap_lock() not called (or only conditionally)', construct=f'{nm} calls _wrap_lock')
-        # subclasses do not override __init__/__setstate__/_wrap_lock without delegating
-        for val, ci in states.items():
-            for nm in ('__init__', '__setstate__', '_wrap_lock', '__getattribute__'):
-                if nm in ci.methods:
-                    m = ci.methods[nm]
-                    ok = nm in ('__init__', '__setstate__') and any(
-                        isinstance(c.func, ast.Attribute) and c.func.attr == nm and isinstance(c.func.value, ast.Call)
-                        and call_name(c.func.value) == 'super' for c in calls_in(m.node))
-                    ck.ob('R-C03-LOCKED', m, m.node, f'{ci.name}.{nm} delegates to TransferState.{nm}', ok,
-                          'override does not call super()', construct=f'{ci.name}.{nm}')
-        # the loop wraps every public method: predicate `not name.startswith('_')` and nothing else
-        setattrs = [c for c in calls_in(wl.node) if call_name(c) == 'setattr']
-        ck.floor('R-C03-LOCKED.setattr', len(setattrs), 1)
-        for c in setattrs:
-            gs = eng.guards_at(wl, c)
-            ok = len(gs) == 1 and (not gs[0][1]) and call_name(gs[0][0]) == 'startswith' and \
-                const(gs[0][0].args[0]) == '_' if gs else False
-            uses_lock = any(call_name(x) == '_with_state_lock' for x in ast.walk(c))
-            loops = [a for a in ancestors(c) if isinstance(a, ast.For)]
-            it_ok = bool(loops) and 'getmembers' in unparse(loops[0].iter) and 'ismethod' in unparse(loops[0].iter)
-            ck.ob('R-C03-LOCKED', wl, c, 'every public method (name not starting with "_") is re-bound to the locked wrapper',
-                  ok and uses_lock and it_ok, f'guards: {[unparse(g[0]) for g in gs]}, wrapper used: {uses_lock}, '
-                  f'iterates inspect.getmembers(ismethod): {it_ok}', construct='wrap loop')
+    wraps = defs.state_lock_wrapping(eng, ck, 'R-C03-LOCKED')
+    for nm in ('__init__', '__setstate__'):
+        m = base.methods.get(nm)
+        ck.ob('R-C03-LOCKED', m or base, (m or base).node, f'TransferState.{nm} wraps the public methods with the state lock unconditionally',
+              wraps[nm], 'the wrap loop (or the helper that holds it) is not run, or only conditionally', construct=f'{nm} calls _wrap_lock')
+    # subclasses do not override __init__/__setstate__/_wrap_lock without delegating
+    for val, ci in states.items():
+        for nm in ('__init__', '__setstate__', '_wrap_lock', '__getattribute__'):
+            if nm in ci.methods:
+                m = ci.methods[nm]
+                ok = nm in ('__init__', '__setstate__') and any(
+                    isinstance(c.func, ast.Attribute) and c.func.attr == nm and isinstance(c.func.value, ast.Call)
+                    and call_name(c.func.value) == 'super' for c in calls_in(m.node))
+                ck.ob('R-C03-LOCKED', m, m.node, f'{ci.name}.{nm} delegates to TransferState.{nm}', ok,
+                      'override does not call super()', construct=f'{ci.name}.{nm}')
     wsl = eng.func(TSTATE, '_with_state_lock')
     wrapper = repo.find_func(TSTATE, '_with_state_lock.<locals>.wrapper')
     ck.ob('R-C03-LOCKED', wsl, wsl.node, '_with_state_lock defines an async wrapper', wrapper is not None and wrapper.is_async,
